@@ -664,7 +664,7 @@ class C15C(EngineBase):
 
     def make_config(self, streams, tier):
         r = streams.get("config")
-        kind = r.choice(["biased", "biased", "biased", "pct", "uniform"])
+        kind = r.choice(["biased", "biased", "biased", "pct", "uniform", "breakpoint", "breakpoint"])
         return {
             "nthreads": r.choice([2, 2, 3, 3, 4]),
             "nshared": r.choice([2, 3, 4, 5]),
@@ -810,18 +810,26 @@ class C15C(EngineBase):
                 results.append(("ok", res))
         return fn
 
-    def _reference(self, st):
+    def _reference(self, st, discover=False):
         """Each thread's program alone, sequentially, untraced, cold caches."""
         ref = {}
+        executed = []
         for tid, steps in sorted(st.tsteps.items()):
             core.world_reset(0, 512)
             shared = self._build_shared(st.shared_steps)
             res = []
-            self._make_fn(steps, _collections.ChainMap({}, shared), res)()
+            fn = self._make_fn(steps, _collections.ChainMap({}, shared), res)
+            if discover:
+                for c in T.discover_executed(_tiers(), fn):
+                    if c not in executed:
+                        executed.append(c)
+            else:
+                fn()
             ref[tid] = [(r[0], S.snap(r[1])) if r[0] == "ok" else r for r in res]
+        st.executed_hot = executed
         return ref
 
-    def _concurrent(self, st, policy, instruction_level=True):
+    def _concurrent(self, st, policy, instruction_level=True, record_sites=False):
         cfg = st.config
         core.world_reset(cfg["maxsize"], cfg["maxsectors"])
         shared = self._build_shared(st.shared_steps)
@@ -842,23 +850,59 @@ class C15C(EngineBase):
                for tid in tids]
         extra = []
         fb = cfg.get("instr_b", 0.0)
-        if fb:
+        only = None
+        line_level = True
+        if policy.kind == "breakpoint":
+            # the only pre-emption point of such a run is the chosen site
+            only = [policy.breakpoint[0]]
+            line_level = False
+        elif fb:
             tb = sorted((c for c, t in _tiers().items() if t == "B"),
                         key=lambda c: (c.co_filename, c.co_firstlineno, c.co_name))
             pick = random.Random(cfg["sched_seed"] ^ 0x5EED)
             extra = [c for c in tb if pick.random() < fb]
         baton = T.Baton(fns, policy, _tiers(), instruction_level=instruction_level,
-                        extra_instruction_codes=extra)
+                        extra_instruction_codes=extra, line_level=line_level,
+                        only_instruction_codes=only)
+        baton.record_sites = record_sites
         baton.run()
         return baton, shared, before, {tid: results[tid] for tid in tids}
 
-    def _policy(self, st, hot_events=None):
+    def _policy(self, st, hot_events=None, sites=None, rep=0):
         cfg = st.config
         sch = cfg.get("schedule")
+        if sch is not None and "bp" in sch:
+            code = [c for c in _tiers() if T.code_id(c) == sch["bp"][:3]]
+            if not code:
+                return T.Policy("sequential")
+            pol = T.Policy("breakpoint", rng=random.Random(sch["rng"]),
+                           breakpoint=(code[0], -sch["bp"][3] - 1), occurrence=sch["occ"])
+            pol.seed = sch["rng"]
+            return pol
         if sch is not None:
             return T.Policy("recorded", recorded={int(p): t for p, t in sch["switches"]},
                             recorded_exits=sch["exits"])
-        rng = random.Random(cfg["sched_seed"])
+        rng = random.Random(cfg["sched_seed"] + 7919 * rep)
+        if cfg["policy"] == "breakpoint":
+            codes = sites
+            if not codes:
+                return T.Policy("sequential")
+            # windows right around a write to shared state are the classic
+            # race windows: 75% of the breakpoints go there
+            import dis as _dis
+            weights = [max(1, len(T.write_adjacent_offsets(c))) for c in codes]
+            code = rng.choices(codes, weights=weights)[0]
+            near = sorted(T.write_adjacent_offsets(code))
+            if near and rng.random() < 0.75:
+                off = rng.choice(near)
+            else:
+                off = rng.choice([i.offset for i in _dis.get_instructions(code)])
+            occ = rng.choice([1, 1, 1, 2, 3])
+            seed2 = rng.randrange(2**31)
+            pol = T.Policy("breakpoint", rng=random.Random(seed2),
+                           breakpoint=(code, -off - 1), occurrence=occ)
+            pol.seed = seed2
+            return pol
         if cfg["policy"] == "pct":
             pts = set()
             if hot_events:
@@ -874,19 +918,42 @@ class C15C(EngineBase):
         cfg = st.config
         if not st.tsteps or len(st.tsteps) < 2:
             return
-        ref = self._reference(st)
+        bp = cfg["policy"] == "breakpoint" and cfg.get("schedule") is None
+        ref = self._reference(st, discover=bp)
         hot = None
+        sites = None
         if cfg["policy"] == "pct" and cfg.get("schedule") is None:
             dry, _, _, _ = self._concurrent(st, T.Policy("sequential"))
             hot = dry.hot_points
-        policy = self._policy(st, hot)
-        baton, shared, before, results = self._concurrent(st, policy)
-        st.schedule = {"switches": [[p, t] for p, t in baton.switches],
-                       "exits": baton.exit_picks if policy.kind != "recorded" else cfg["schedule"]["exits"]}
+        if bp:
+            sites = sorted(st.executed_hot,
+                           key=lambda c: (c.co_filename, c.co_firstlineno, c.co_name))
+            st.stats["sched.breakpoint_candidate_functions"] += len(sites)
+        # a breakpoint run is cheap next to generating the program and its
+        # reference, so several sites are tried on the same program
+        nrep = 1
+        if cfg["policy"] == "breakpoint" and cfg.get("schedule") is None and sites:
+            nrep = cfg.get("bp_tries", 12)
+        for rep in range(nrep):
+            policy = self._policy(st, hot, sites, rep)
+            baton, shared, before, results = self._concurrent(st, policy)
+            self._judge_run(st, policy, baton, shared, before, results, ref)
+
+    def _judge_run(self, st, policy, baton, shared, before, results, ref):
+        cfg = st.config
+        if policy.kind == "breakpoint":
+            c, w = policy.breakpoint
+            st.schedule = {"bp": T.code_id(c) + [-w - 1], "occ": policy.occurrence,
+                           "rng": policy.seed}
+        else:
+            st.schedule = {"switches": [[p, t] for p, t in baton.switches],
+                           "exits": baton.exit_picks if policy.kind != "recorded" else cfg["schedule"]["exits"]}
         st.stats["sched.points"] += baton.point
         st.stats["sched.hot_points"] += baton.hot_points
         st.stats["fault.preemption"] += len(baton.switches)
         st.stats["sched.policy." + cfg["policy"]] += 1
+        if getattr(policy, "parked", None) is not None:
+            st.stats["reach.breakpoint_fired"] += 1
         hot_sw = 0
         for name, where in baton.switch_sites:
             st.states.add(f"{name}:{where}")
@@ -896,7 +963,8 @@ class C15C(EngineBase):
         st.stats["cache.hit"] += AC._fi_hit
         st.stats["cache.miss"] += AC._fi_missed
         st.stats["step.ok"] += sum(1 for r in results.values() for x in r if x[0] == "ok")
-        st.log.add("schedule", [baton.point, st.schedule["switches"][:50], st.schedule["exits"]])
+        st.log.add("schedule", [baton.point, st.schedule.get("switches", [])[:50],
+                                st.schedule.get("exits"), st.schedule.get("bp")])
         # oracle 3: shared values untouched
         for n, s0 in before.items():
             s1 = S.snap(shared[n])
